@@ -299,6 +299,32 @@ def check(case):
       out.add('get_all_paths-wrong', 'mismatch', '', feat + ':' + tname, str(problems[0])[:600])
       return out
 
+  # 5a. legacy traverse_with_all_paths: containers get their own path set, values without identity
+  #     the paths of the container they sit in plus their own last element
+  if not has_box:
+    legacy_problems = []
+
+    def all_paths_fn(all_paths, current_path, value):
+      np_ = norm_path(current_path)
+      if _memoizable_doc(value):
+        want = sorted(_pk(p) for p in by_id[id(value)])
+      else:
+        want = _leaf_paths(np_, ref_by_path, by_id) if np_ else [_pk(())]
+      if want is not None and not legacy_problems:
+        have = sorted(_pk(norm_path(p)) for p in all_paths)
+        if want != have:
+          legacy_problems.append((np_, want[:3], have[:3]))
+      return (yield)
+
+    try:
+      daglish_legacy.traverse_with_all_paths(all_paths_fn, root)
+    except Exception as e:  # pylint: disable=broad-except
+      out.add('legacy-all-paths-raises', exc_kind(e), fiddle_frame(e), feat, repr(e)[:300])
+      return out
+    if legacy_problems:
+      out.add('legacy-all-paths-wrong', 'mismatch', '', feat, str(legacy_problems[0])[:600])
+      return out
+
   # 5b. memoize_internables=False: named tuples / lists / Buildables are still identity-bearing
   seen2 = collections.Counter()
   keep2 = []
